@@ -71,6 +71,7 @@ class BoolExpr:
     ob_timeout_ms = 30000
     path_timeout = 120
     hang_timeout = 60
+    max_degree = 2  # atoms of higher degree arise only after the library replaced |C'|^2 < 1e-6 by 1e-6 (segments shorter than 1e-3): such paths are cut as intractable
 
     def __init__(self, A, B, expr, dof=1, direction=(3, 1), lim=3, C=None, moments=False, wellformed=False, slab=None):
         self.A, self.B, self.C = A, B, C
